@@ -254,6 +254,22 @@ def index_guarded(node, expr, k, fn, names):
                     if n is not None and (n >= k + 1 if isinstance(fe.ops[0], ast.Lt) else n >= k + 2):
                         return 'lemma L1b (%s is %s without one atom, and %s)' % (
                             expr.id, norm(src), norm(fe))
+                    if n is not None:
+                        # at least lb entries; lengths that the path has excluded raise the bound
+                        lb = int(n) if isinstance(fe.ops[0], ast.Lt) else int(n) - 1
+                        excluded = set()
+                        for fe2, p2 in facts_at(node, fn):
+                            if isinstance(fe2, ast.Compare) and len(fe2.ops) == 1 \
+                                    and norm(fe2.left) == 'len(%s)' % expr.id:
+                                v2 = try_fold(fe2.comparators[0])
+                                if v2 is not None and ((p2 and isinstance(fe2.ops[0], ast.NotEq))
+                                                       or (not p2 and isinstance(fe2.ops[0], ast.Eq))):
+                                    excluded.add(int(v2))
+                        while lb in excluded:
+                            lb += 1
+                        if lb > k:
+                            return 'lemma L1b (%s is %s without one atom, %s, and its length is not %s)' % (
+                                expr.id, norm(src), norm(fe), sorted(excluded))
     # try/except IndexError
     for anc in ancestors(node):
         if isinstance(anc, ast.Try) and any(
@@ -443,6 +459,10 @@ def run(ctx):
                     and not isinstance(node.value, (ast.Tuple, ast.List)) and is_src(node.value, names):
                 op = 'unpack[%d]' % len(node.targets[0].elts)
                 n = len(node.targets[0].elts)
+                # the length is tested on the same expression
+                for t, p in fact_texts(node, fn):
+                    if p and t.replace(' ', '') == 'len(%s)==%d' % (norm(node.value).replace(' ', ''), n):
+                        why = t
                 if isinstance(node.value, ast.Call):
                     ar = fixed_arity_callee(cg, fid, node.value)
                     if ar == n:
@@ -697,6 +717,19 @@ def run(ctx):
                     t = fc.text(e.comparators[0])
                     return 'EXPECTED_ATOMS_ACID_INTERACTIONS' in t or 'EXPECTED_ATOMS_BASE_INTERACTIONS' in t
                 for e, p in facts_at(node, fn):
+                    # `not all(<test> for table, ... in [the two tables] if self.type in table ...)`:
+                    # all() of nothing is True, so some table passed the membership condition
+                    if not p and isinstance(e, ast.Call) and call_name(e) == 'all' and len(e.args) == 1 \
+                            and isinstance(e.args[0], ast.GeneratorExp):
+                        for g in e.args[0].generators:
+                            for cond in g.ifs:
+                                if isinstance(cond, ast.Compare) and isinstance(cond.ops[0], ast.In) \
+                                        and norm(cond.left) == 'self.type' \
+                                        and 'EXPECTED_ATOMS' in norm(g.iter) and norm(g.target).strip('()').split(',')[0].strip() \
+                                        in norm(cond.comparators[0]):
+                                    ok, why = True, ('reached only when all(...) over the tables that hold '
+                                                     'self.type is False, so one of them holds it, and both '
+                                                     'tables have the same keys')
                     if p or not (isinstance(e, ast.Call) and isinstance(e.func, ast.Attribute)
                                  and norm(e.func.value) == 'self' and not e.args and not e.keywords):
                         continue
